@@ -171,8 +171,14 @@ def run(c):
         c.parallel(jobs, max_workers=6)
     for name, key in (("tie", "RowSumInv"), ("lift", "LiftInv"), ("uninit", "NoOOBInv")):
         m = pinned.get(name)
-        if m is not None and m["violated"]:
-            c.note("model of the pinned code (%s) violates %s as expected: counter-example found by TLC" % (m["name"], m["violated"]))
+        if m is None:
+            continue
+        if m["violated"]:
+            c.note("model of the snapshot behaviour (%s) violates %s as it must: counter-example found by TLC" % (m["name"], m["violated"]))
+        else:
+            # the snapshot variants (defects since repaired in /repo) must keep violating: otherwise the
+            # invariant / the enumerated space lost the power to see that defect
+            c.vacuous.append("RugeStuben/BlockLift model variant '%s' of the snapshot behaviour no longer violates %s" % (name, key))
     for m in c.models:
         if m.get("violated") and not str(m.get("cfg", "")).count("pinned"):
             c.drift("model %s violates %s: the transcription of the repaired algorithm is wrong or the algorithm has a further defect"
